@@ -12,7 +12,8 @@ TRUSTED = ["Model/Stress.v sigma (PrimFloat instance) tied to stress_tensor.stre
            "|areas|, histogram edges and the interface vectors (circle fit) are taken from the implementation as oracle values by the model "
            "side and recomputed independently by the oracle (except the fitted vectors)"]
 ASSUMPTIONS = ["np.linalg.eig is an oracle; eigenpairs are checked by residual"]
-TESTED_NOT_PROVED = ["'the principal stresses are the eigen-decomposition of the tensor at each grid centre' is evaluated by the oracle (residual check)"]
+TESTED_NOT_PROVED = ["'the principal stresses are the eigen-decomposition of the tensor at each grid centre': the closed form of the eigenvalues is proved to be the roots of the "
+                     "characteristic polynomial (C18_principal_are_eigenvalues) and compared with numpy's eig (PrimFloat, 1e-9); the eigenvectors are checked by residual"]
 IMPORTS = "From Forsys Require Import Model.Num Model.CaseUtil Model.Stress.\n"
 
 
@@ -144,6 +145,14 @@ def check_case(res, spec, grid, radius, rng, exprs, label):
                 if np.max(np.abs(S @ vec - vec * val)) > 1e-9 * (1 + np.max(np.abs(S))):
                     bad.append(f"principal stresses at grid centre ({r},{c}) are not an eigen-decomposition of its tensor")
                     break
+                # the reported eigenvalues against the closed form of Model/Stress.v (PrimFloat, relative to the size of the tensor)
+                if sum(1 for x in exprs if "principal FOps" in x[0]) < 12 and np.all(np.isreal(val)):
+                    hi, lo = sorted((float(np.real(val[0])), float(np.real(val[1]))), reverse=True)
+                    sc = 1.0 + float(np.max(np.abs(S)))
+                    exprs.append((f"let pr := principal FOps ({C.flit(S[0, 0])}, {C.flit(S[0, 1])}, {C.flit(S[1, 1])}) in "
+                                  f"fclose {C.flit(1e-9)} (PrimFloat.div (fst pr) {C.flit(sc)}) {C.flit(hi / sc)} && "
+                                  f"fclose {C.flit(1e-9)} (PrimFloat.div (snd pr) {C.flit(sc)}) {C.flit(lo / sc)}", replay))
+                    res.count("principal stresses against the closed form (PrimFloat)")
         # the reported principal stresses are those of THIS analysis: one entry per grid centre, also when the same frame was analysed
         # before with another grid
         if len(collide) == grid * grid and len(fr.principal_stress) != grid * grid:
